@@ -254,6 +254,16 @@ def rule_templates(n):
               ('compose', ((sl(a, 0, q), 0, q), (('int', 0, q), q, h), (('int', 1, h), h, n))),
               ('compose', ((a, 0, n),)),
               ('compose', ((sl(a, 0, h), 0, h), (('cond', b, ('int', 0, h), ('int', 1, h)), h, n)))]
+        # two / three slices of ONE source in neighbouring slots that are NOT contiguous in the source (gap, overlap, repeated
+        # window, gap in a wider source, gap then contiguous): none of them may merge into one slice
+        e8 = max(n // 8, 1)
+        Z = ('id', 'z', 2 * n)
+        T += [('compose', ((sl(a, 0, q), 0, q), (sl(a, h, h + q), q, h))),
+              ('compose', ((sl(a, 0, q), 0, q), (sl(a, h, h + q), q, h), (sl(b, 0, h), h, n))),
+              ('compose', ((sl(a, 0, h), 0, h), (sl(a, h - e8, n - e8), h, n))),
+              ('compose', ((sl(a, 0, h), 0, h), (sl(a, 0, h), h, n))),
+              ('compose', ((sl(Z, 0, h), 0, h), (sl(Z, n, n + h), h, n))),
+              ('compose', ((sl(Z, 0, q), 0, q), (sl(Z, q + e8, h + e8), q, h), (sl(Z, h + e8, n + e8), h, n)))]
         # every kind of slot content in every position (2 slots), and a 3-slot mix
         def slot(kind, i, w, lo):
             if kind == 's':
